@@ -178,6 +178,39 @@ def por_run(n1d, npart, coord, dtype, offset_cells, empty=()):
     return conflicts, pairs, diff / scale, len(pos), fps, (ppart, starts, wpart, shape, offset)
 
 
+def front_por(n1d, who, coord, dtype, wrap, sort=False):
+    """E-POR through the WHOLE interpreted front end (wrap, partition, weights, stripe kernel - all the real sources as twins):
+    the data flow between the steps is part of what keeps concurrently processed stripes apart.  Particles include
+    periodic images outside [0, Box) when wrap=True, and carry distinct weights.  Reference: the serial scatter kernel on the
+    same particles (periodically wrapped in float64)."""
+    T = env()
+    tsc, rt = T['tsc'], T['rt']
+    nthread, nparg = who
+    pos = probes(n1d, 4, coord, dtype, 0.0)
+    pos = pos[:: max(1, len(pos) // 90)]
+    w = (1 + (np.arange(len(pos)) % 11) / 16).astype(dtype)
+    if wrap:
+        pos = pos.copy()
+        pos[1::3, coord] += dtype(BOX)
+        pos[2::3, coord] -= dtype(BOX)
+        pos[::5, (coord + 1) % 3] += dtype(BOX)
+    shape = [3, 3, 3]
+    shape[coord] = n1d
+    ref = np.zeros(shape, dtype=np.float64)
+    p64 = pos.astype(np.float64)
+    p64 -= BOX * np.floor(p64 / BOX)          # periodic images (the subtraction is exact for these inputs)
+    p64[p64 >= BOX] -= BOX
+    tsc._tsc_scatter(p64, ref, BOX, weights=w.astype(np.float64), offset=0.0)
+    dens = np.zeros(shape, dtype=dtype)
+    rt.reset(keep_footprints=False, max_threads=4096)
+    T['front'].__globals__[T['kname']] = T['par']
+    T['front'](pos.copy(), rt.track(dens, 'density'), BOX, weights=w.copy(), nthread=nthread, npartition=nparg, coord=coord, wrap=wrap, sort=sort)
+    conflicts = [(reg.index,) + c for reg in rt.regions for c in reg.conflicts]
+    pairs = sum(reg.pairs_checked for reg in rt.regions)
+    scale = float(np.abs(ref).max()) or 1.0
+    return conflicts, pairs, float(np.abs(dens - ref).max()) / scale, len(pos)
+
+
 def run_config(case):
     n1d, coord = case['n1d'], case['coord']
     probs = []
@@ -185,7 +218,7 @@ def run_config(case):
     ncalls = 0
     accepted = {}
     default_np = {}
-    unknown = differs = thread_differs = 0
+    unknown = differs = thread_differs = front_runs = 0
     for nthread in NTHREADS:
         for npart in [None] + list(range(1, n1d + 1)):
             verdict, info = front_decision(n1d, coord, nthread, npart)
@@ -248,10 +281,27 @@ def run_config(case):
                             probs.append(dict(sig='por:differs-from-serial:empty-stripes', msg=f'n1d={n1d} coord={coord} npartition={npart} empty={empty}: max rel diff {rel2}'))
                 if not rel <= tol:
                     probs.append(dict(sig='por:differs-from-serial', msg=f'n1d={n1d} coord={coord} npartition={npart} dtype={dtype.__name__} offset={off}: max rel diff {rel}'))
+        # the same configuration end to end through the front end's own data flow
+        for who in dict.fromkeys([accepted[npart][0], accepted[npart][-1]]):
+            for wrap, sort in ((True, False), (False, True)):
+                try:
+                    c3, p3, rel3, n3 = front_por(n1d, who, coord, np.float32, wrap, sort)
+                except ValueError:
+                    continue        # (refused for this input after all)
+                pairs_total += p3
+                states += n3
+                trans += n3 * 27
+                front_runs += 1
+                if c3:
+                    c = c3[0]
+                    probs.append(dict(sig='por:stripes-share-cells:front-end', msg=f'n1d={n1d} coord={coord} nthread={who[0]} npartition arg={who[1]} (runs {npart} stripes) wrap={wrap} sort={sort}, '
+                                          f'particles incl. periodic images outside the box: bodies {c[4]} of parallel region {c[0]} both access {c[1]} element {c[3]} ({c[2]})'))
+                if not rel3 <= 1e-5:
+                    probs.append(dict(sig='por:differs-from-serial:front-end', msg=f'n1d={n1d} coord={coord} nthread={who[0]} npartition arg={who[1]} wrap={wrap} sort={sort}: weighted grid differs from the single-threaded deposit, max rel diff {rel3}'))
         nt.append((n1d, npart, coord))
     return dict(problems=probs, evals=ncalls, nt=nt, states=max(states, 1), transitions=max(trans, 1), traces=0,
                 extra=dict(front_end_calls=ncalls, stripe_pairs_checked=pairs_total, accepted_multistripe_configs=len(accepted),
-                           accepted_without_stripe_kernel=unknown, ran_with_other_stripe_count=differs, ran_with_other_thread_count=thread_differs),
+                           accepted_without_stripe_kernel=unknown, front_end_por_runs=front_runs, ran_with_other_stripe_count=differs, ran_with_other_thread_count=thread_differs),
                 sample=dict(n1d=n1d, coord=coord, defaults=default_np, accepted_npartitions=sorted(accepted)) if n1d in (8, 24) and coord == 0 else None)
 
 
